@@ -358,7 +358,10 @@ func DecodeExclusive[T any](c Cursor, obj Object, decode func(Cursor, Object, bo
 	x.mu.Lock()
 	if v, ok := x.cache[key]; ok {
 		x.mu.Unlock()
-		return v.(T), nil
+		// a nil result cached for an interface type T yields the zero value
+		// instead of panicking on the assertion (as in Decode)
+		r, _ := v.(T)
+		return r, nil
 	}
 	if p, ok := x.wip[key]; ok {
 		x.mu.Unlock()
@@ -367,7 +370,8 @@ func DecodeExclusive[T any](c Cursor, obj Object, decode func(Cursor, Object, bo
 		if p.err != nil {
 			return zero, p.err
 		}
-		return p.val.(T), nil
+		r, _ := p.val.(T)
+		return r, nil
 	}
 	p := &pending{done: make(chan struct{})}
 	x.wip[key] = p
